@@ -451,6 +451,33 @@ def dump_json(obj, path):
     os.replace(tmp, path)
 
 
+def operand_bytes(ctx, call):
+    """pre-hook: the bytes of every array operand of a call (a query / constructor / binary operator never changes its operands)."""
+    out = []
+    for a in list(call.args) + list(call.kwargs.values()):
+        arr = getattr(a, "array", a if isinstance(a, np.ndarray) else None)
+        out.append(None if not isinstance(arr, np.ndarray) else (arr, arr.dtype.str, arr.shape, arr.tobytes()))
+    return out
+
+
+def with_operands_unchanged(post, monitor):
+    """Wrap a post-monitor: after it, judge under `monitor` that no array operand was changed in place (needs pre=operand_bytes)."""
+    def both(ctx, call):
+        post(ctx, call)
+        for k, rec in enumerate(call.pre or []):
+            if rec is None:
+                continue
+            arr, dt, shape, raw = rec
+            if arr.dtype.str != dt or arr.shape != shape or arr.tobytes() != raw:
+                ctx.judge(monitor, False, [np.frombuffer(raw, dtype=dt).reshape(shape), arr], what=f"{call.name} changed the array of its operand {k} in place", op=call.name,
+                          feat={"op": call.name, "arg": k}, nontrivial=True)
+                return
+        if call.pre:
+            ctx.judge(monitor, True, [], op=call.name, nontrivial=False)
+
+    return both
+
+
 class GeometrySkip(Exception):
     """raised by workloads to skip a degenerate draw"""
 
